@@ -139,6 +139,9 @@ class Repo:
         self.normalised: Dict[str, List[str]] = {}
         if os.environ.get("VERIF_NO_NORMALIZE") or not N.vocab()["functions"]:
             return
+        mc = N.inline_new_module_constants(self)
+        if mc:
+            self.normalised["inlined module constants"] = mc
         for m in self.modules.values():
             if N.canonical_idioms(m.tree):
                 self.normalised.setdefault("idioms", []).append(m.name)
@@ -148,6 +151,9 @@ class Repo:
         done = N.inline_new_helpers(self)
         if done:
             self.normalised["inlined helpers"] = done
+        cms = N.inline_new_context_managers(self)
+        if cms:
+            self.normalised["inlined context managers"] = cms
         for q, fi in self.functions.items():
             if isinstance(fi.node, ast.FunctionDef) and N.canonical_dict_loops(fi.node):
                 self.normalised.setdefault("dict loops", []).append(q)
